@@ -22,6 +22,7 @@ func c01Restart(ctx *vkit.Ctx, cs *vkit.Case, x *vexec.Exec, where string) {
 	}
 	u := x.M.Universe()
 	before := vexec.Observe(x.E, u)
+	probes := c01SearchProbe(ctx, cs, x, where, nil)
 	x.Restart()
 	after := vexec.Observe(x.E, u)
 	if d := vexec.Diff(before, after); len(d) > 0 {
@@ -33,6 +34,18 @@ func c01Restart(ctx *vkit.Ctx, cs *vkit.Case, x *vexec.Exec, where string) {
 	}
 	ctx.Count("restarts", 1)
 	ctx.Count("observables_compared", int64(len(before.Vals)+len(before.Vecs)))
+	// replay may itself write (cascade repairs, re-journaled quantizer range): a second
+	// restart right away must not change anything either
+	if cs.R.Chance(0.2) {
+		x.Restart()
+		again := vexec.Observe(x.E, u)
+		if d := vexec.Diff(before, again); len(d) > 0 {
+			cs.Attach("diff", d)
+			cs.Fail("%s: %d observable(s) changed across a second immediate Close/Open, first: %s", where, len(d), d[0])
+		}
+		ctx.Count("restarts.immediate_second", 1)
+	}
+	c01SearchProbe(ctx, cs, x, where, probes)
 	// usability: one add / read / delete per index
 	for _, name := range vexec.SortedKeys(x.M.Idx) {
 		mi := x.M.Idx[name]
@@ -49,11 +62,86 @@ func c01Restart(ctx *vkit.Ctx, cs *vkit.Case, x *vexec.Exec, where string) {
 		if msg := x.CheckRecord(name, id); msg != "" {
 			cs.Fail("%s: usability after restart: %s", where, msg)
 		}
+		// a link from the probe to a live node and back out of the graph again
+		if tgt := vexec.SortedKeys(mi.Recs)[0]; tgt != id {
+			x.VLink(name, id, tgt, "probe_rel", "", 1, nil)
+			if l, _ := x.E.VGetLinks(name, id, "probe_rel"); len(l) != 1 || l[0] != tgt {
+				cs.Fail("%s: usability after restart: VGetLinks(%s,%s,probe_rel)=%v want [%s]", where, name, id, l, tgt)
+			}
+			x.VUnlink(name, id, tgt, "probe_rel", "", true)
+		}
 		x.VDelete(name, id)
 		if msg := x.CheckRecord(name, id); msg != "" {
 			cs.Fail("%s: usability after restart: %s", where, msg)
 		}
 	}
+}
+
+// c01SearchProbe: the search structure restored by Open (entry point, levels, neighbour
+// lists, int8 norms) is observable only through a search. For every index a search for the
+// vector of a live id, with k above the number of live vectors, must return no error, only
+// live ids, no id twice, and something when the index is not empty. Called before the restart
+// (prev == nil) it records query and answer; called after it with those records it also
+// demands, while the index holds at most 2*M nodes (tombstones included: the regime in which
+// C07 states that search is exact and does not degrade over a restart), that an answer that
+// listed EVERY live id before Close lists every live id again. Outside that regime what an
+// approximate search finds may legitimately differ between the graph that was built and the
+// graph that was restored.
+type c01Probe struct {
+	q        []float32
+	complete bool
+}
+
+func c01SearchProbe(ctx *vkit.Ctx, cs *vkit.Case, x *vexec.Exec, where string, prev map[string]c01Probe) map[string]c01Probe {
+	out := map[string]c01Probe{}
+	when := "before the restart"
+	if prev != nil {
+		when = "on the reopened index"
+	}
+	for _, name := range vexec.SortedKeys(x.M.Idx) {
+		mi := x.M.Idx[name]
+		live := vexec.SortedKeys(mi.Recs)
+		if len(live) == 0 || mi.Dim == 0 {
+			continue
+		}
+		q := vexec.CopyVec(mi.Recs[vkit.Pick(cs.R, live)].Vec)
+		if p, ok := prev[name]; ok {
+			q = p.q
+		}
+		k := len(live) + 2
+		cs.Op("VSearch(%s,%v,k=%d) [probe %s]", name, q, k, when)
+		got, err := x.E.VSearch(name, q, k, "", "", 400, 1.0, nil)
+		if err != nil {
+			cs.Fail("%s: VSearch %s (%s) failed: %v", where, when, name, err)
+		}
+		seen := map[string]bool{}
+		for _, id := range got {
+			if mi.Recs[id] == nil {
+				cs.Fail("%s: VSearch %s (%s) returned %q, which is not a live id (live %v)", where, when, name, id, live)
+			}
+			if seen[id] {
+				cs.Fail("%s: VSearch %s (%s) returned %q twice", where, when, name, id)
+			}
+			seen[id] = true
+		}
+		if len(got) == 0 {
+			cs.Fail("%s: VSearch %s (%s, %d live vectors) returned nothing", where, when, name, len(live))
+		}
+		out[name] = c01Probe{q: q, complete: len(got) == len(live)}
+		if prev == nil {
+			continue
+		}
+		ctx.Count("search_probes", 1)
+		if p, ok := prev[name]; ok && p.complete {
+			if nodes := x.NodeSlots(name); nodes > 0 && nodes <= 2*mi.Cfg.M {
+				ctx.Count("search_probes.complete_before_small_regime", 1)
+				if len(got) != len(live) {
+					cs.Fail("%s: VSearch(k=%d) listed all %d live ids of %s before Close and lists only %v after Open (live %v; %d node slots <= 2*M=%d)", where, k, len(live), name, got, live, nodes, 2*mi.Cfg.M)
+				}
+			}
+		}
+	}
+	return out
 }
 
 type c01Tmpl struct {
@@ -74,7 +162,77 @@ func vec(g *vexec.Gen, vals ...float32) []float32 {
 	return v
 }
 
+func vecDim(dim int, vals ...float32) []float32 {
+	v := make([]float32, dim)
+	for i := range v {
+		if i < len(vals) {
+			v[i] = vals[i]
+		} else {
+			v[i] = 0.125 * float32(i+1)
+		}
+	}
+	return v
+}
+
 var c01Templates = []c01Tmpl{
+	{"slot_reuse_after_snapshot", false, func(ctx *vkit.Ctx, cs *vkit.Case, x *vexec.Exec, g *vexec.Gen, cfg vexec.IndexCfg) {
+		// the snapshot's slot table still maps the deleted id when its arena slot is reused
+		x.VCreate(cfg)
+		for i := 0; i < 5; i++ {
+			x.VAdd(cfg.Name, fmt.Sprintf("n%d", i), g.Vec(), g.Meta())
+		}
+		x.SaveSnapshot()
+		x.VDelete(cfg.Name, "n1")
+		x.VDelete(cfg.Name, "n3")
+		x.Maintenance(cfg.Name, "vacuum")
+		x.VAdd(cfg.Name, "fresh", g.Vec(), map[string]any{"cat": "alpha"})
+		x.VAdd(cfg.Name, "n3", g.Vec(), nil)
+		c01Restart(ctx, cs, x, "snapshot, delete, vacuum, add (slot reuse)")
+		x.VAdd(cfg.Name, "fresh2", g.Vec(), nil)
+		x.RewriteAOF()
+		c01Restart(ctx, cs, x, "slot reuse, compact")
+	}},
+	{"recreate_other_dimension", false, func(ctx *vkit.Ctx, cs *vkit.Case, x *vexec.Exec, g *vexec.Gen, cfg vexec.IndexCfg) {
+		x.VCreate(cfg)
+		for i := 0; i < 4; i++ {
+			x.VAdd(cfg.Name, fmt.Sprintf("n%d", i), g.Vec(), g.Meta())
+		}
+		if cs.R.Chance(0.5) {
+			x.SaveSnapshot()
+		}
+		x.VDeleteIndex(cfg.Name)
+		x.VCreate(cfg)
+		d2 := g.Dim + cs.R.Range(1, 5)
+		x.VAdd(cfg.Name, "n0", vecDim(d2, 1, 0), map[string]any{"cat": "beta"})
+		x.VAdd(cfg.Name, "w", vecDim(d2, 0, 1), nil)
+		x.VAddBatch(cfg.Name, []types.BatchObject{{Id: "b0", Vector: vecDim(d2, 0.5, -0.5)}, {Id: "b1", Vector: vecDim(d2, -1, -1), Metadata: map[string]any{"num": 3.0}}})
+		c01Restart(ctx, cs, x, "drop, re-create with another dimension")
+		x.SaveSnapshot()
+		x.VAdd(cfg.Name, "z", vecDim(d2, 2, 2), nil)
+		c01Restart(ctx, cs, x, "other dimension, snapshot, add")
+	}},
+	{"config_value_domain", false, func(ctx *vkit.Ctx, cs *vkit.Case, x *vexec.Exec, g *vexec.Gen, cfg vexec.IndexCfg) {
+		// values a journal record, the snapshot or the compaction may silently drop: a memory
+		// configuration that is switched off but filled in, an all-zero maintenance
+		// configuration, cleared auto-link rules
+		cfg.Mem = &hnsw.MemoryConfig{Enabled: false, DecayModel: hnsw.DecayLinear, DecayHalfLife: hnsw.Duration(time.Hour)}
+		cfg.AutoLinks = []hnsw.AutoLinkRule{{MetadataField: "cat", RelationType: "in_cat"}}
+		x.VCreate(cfg)
+		x.VAdd(cfg.Name, "a", vec(g, 1, 0), map[string]any{"cat": "alpha"})
+		how := cs.R.Intn(3)
+		if how == 0 {
+			x.SaveSnapshot()
+		}
+		x.VUpdateAutoLinks(cfg.Name, nil)
+		x.VUpdateIndexConfig(cfg.Name, hnsw.AutoMaintenanceConfig{})
+		if how == 1 {
+			x.RewriteAOF()
+		}
+		x.VAdd(cfg.Name, "b", vec(g, 0, 1), map[string]any{"cat": "beta"})
+		c01Restart(ctx, cs, x, "cleared auto-link rules, zero maintenance config, disabled memory config")
+		x.RewriteAOF()
+		c01Restart(ctx, cs, x, "the same after compaction")
+	}},
 	{"write_after_snapshot", false, func(ctx *vkit.Ctx, cs *vkit.Case, x *vexec.Exec, g *vexec.Gen, cfg vexec.IndexCfg) {
 		x.VCreate(cfg)
 		x.VAdd(cfg.Name, "a", vec(g, 1, 0), map[string]any{"cat": "alpha", "num": 1.0})
